@@ -46,6 +46,8 @@ var c14Groups = []c14Group{
 	{"v6only", []string{"2001:db8:77::/64"}},
 	{"big", []string{"141.219.0.0/16", "35.8.0.0/16"}},
 	{"mixed", []string{"10.9.0.0/30", "fd00::/126", "10.9.1.0/32"}},
+	// prefix lengths that are not a multiple of 8, with network bits set in the octet the mask splits
+	{"unaligned", []string{"192.0.2.16/28", "10.1.16.0/20", "203.0.113.252/30", "2001:db8::ff10/124", "2001:db8:0:f000::/52"}},
 }
 
 type c14Cfg struct {
@@ -282,7 +284,8 @@ func c14VerClass(v uint) string {
 func c14PartOffsets(a *vh.Args) {
 	e := venum.New("A:offsets", a)
 	cidrs := []string{"10.0.0.0/31", "10.0.0.7/32", "2001:db8::1/128", "0.1.2.0/24", "192.122.190.0/24", "::/120", "0.0.0.0/30", "64:ff9b::/120", "fd00::/126", "255.255.255.0/24", "ffff:ffff:ffff:ffff:ffff:ffff:ffff:ff00/120",
-		"141.219.0.0/16", "2001:48a8:687f:1::/64", "64:ff9b::/96", "0.0.0.0/1", "::/1", "10.0.0.0/8"}
+		"141.219.0.0/16", "2001:48a8:687f:1::/64", "64:ff9b::/96", "0.0.0.0/1", "::/1", "10.0.0.0/8",
+		"192.0.2.16/28", "10.1.16.0/20", "203.0.113.252/30", "198.51.100.130/31", "2001:db8::ff10/124", "2001:db8:0:f000::/52", "2001:db8::8000/113", "172.16.255.128/25"}
 	for _, c := range cidrs {
 		_, n, err := net.ParseCIDR(c)
 		if err != nil {
